@@ -113,9 +113,9 @@ theorem markerToBox_tidy (m : MarkerSpec) (attrs : El) (o : Bool) (d : Nat) (out
   unfold markerToBox at h
   simp only at h
   split at h
-  · cases h
+  · cases h; trivial
   · split at h
-    · cases h; trivial
+    · cases h
     · split at h
       · cases h
       · rename_i cs d1 from_ hch
